@@ -150,6 +150,10 @@ pub struct WorldOpts {
     pub lookalikes: bool,
     /// batches spanning many scenes (queue-depth / back-pressure behaviour)
     pub wide: bool,
+    /// exclusively-owned-area thresholds may be configured (VisualSORT)
+    pub own_area: bool,
+    /// fast, accelerating objects (estimate lags the observation; constraint rows bind)
+    pub fast: bool,
 }
 
 struct Obj {
@@ -173,6 +177,7 @@ struct Obj {
     qmode: u8,
     qcur: f32,
     immortal: bool,
+    accel: f32,
 }
 
 pub const FEAT_DIM: usize = 6;
@@ -188,7 +193,7 @@ fn gen_cfg(r: &mut Rng, o: &WorldOpts) -> TrkCfg {
         let n = r.range(1, 3);
         Some(
             (0..n)
-                .map(|_| (r.range(1, 5) as usize, *r.pick(&[0.3f32, 0.6, 1.0, 1.5, 3.0])))
+                .map(|_| (r.range(1, 5) as usize, *r.pick(&[0.1f32, 0.15, 0.2, 0.3, 0.4, 0.6, 1.0, 1.5, 3.0])))
                 .collect(),
         )
     } else {
@@ -205,8 +210,8 @@ fn gen_cfg(r: &mut Rng, o: &WorldOpts) -> TrkCfg {
             q_use: *r.pick(&[0.0f32, 0.3, 0.5]),
             q_collect: *r.pick(&[0.0f32, 0.4, 0.6]),
             min_area: *r.pick(&[0.0f32, 0.0, 150.0]),
-            own_use: 0.0,
-            own_collect: 0.0,
+            own_use: if o.own_area && r.chance(1, 3) { *r.pick(&[0.3f32, 0.6, 0.9]) } else { 0.0 },
+            own_collect: if o.own_area && r.chance(1, 3) { *r.pick(&[0.4f32, 0.7, 0.95]) } else { 0.0 },
         })
     } else {
         None
@@ -231,6 +236,7 @@ fn gen_cfg(r: &mut Rng, o: &WorldOpts) -> TrkCfg {
 }
 
 fn new_obj(r: &mut Rng, serial: u32, scene: u64, o: &WorldOpts, near: Option<(f32, f32)>) -> Obj {
+    let speed = if o.fast && r.chance(1, 2) { 4.0 } else { 1.0 };
     let (x, y) = match near {
         Some((nx, ny)) => (nx + r.f32() * 30.0 - 15.0, ny + r.f32() * 30.0 - 15.0),
         None => (50.0 + r.f32() * 400.0, 50.0 + r.f32() * 300.0),
@@ -244,8 +250,9 @@ fn new_obj(r: &mut Rng, serial: u32, scene: u64, o: &WorldOpts, near: Option<(f3
         scene,
         x,
         y,
-        vx: r.f32() * 6.0 - 3.0,
-        vy: r.f32() * 6.0 - 3.0,
+        vx: (r.f32() * 6.0 - 3.0) * speed,
+        vy: (r.f32() * 6.0 - 3.0) * speed,
+        accel: speed,
         aspect: 0.4 + r.f32() * 1.2,
         height: 20.0 + r.f32() * 60.0,
         angle: if o.rotation && r.chance(1, 3) { Some(r.f32() * 3.0 - 1.5) } else { None },
@@ -325,8 +332,8 @@ pub fn gen_tracker_case(seed: u64, o: &WorldOpts) -> TrackerCase {
             // motion
             ob.x += ob.vx;
             ob.y += ob.vy;
-            ob.vx = (ob.vx + r.f32() * 1.0 - 0.5).clamp(-8.0, 8.0);
-            ob.vy = (ob.vy + r.f32() * 1.0 - 0.5).clamp(-8.0, 8.0);
+            ob.vx = (ob.vx + (r.f32() * 1.0 - 0.5) * ob.accel * ob.accel).clamp(-8.0 * ob.accel, 8.0 * ob.accel);
+            ob.vy = (ob.vy + (r.f32() * 1.0 - 0.5) * ob.accel * ob.accel).clamp(-8.0 * ob.accel, 8.0 * ob.accel);
             ob.height = (ob.height * ob.grow).clamp(8.0, 200.0);
             if let Some(a) = ob.angle.as_mut() {
                 *a += ob.dangle;
@@ -420,6 +427,20 @@ pub fn gen_tracker_case(seed: u64, o: &WorldOpts) -> TrackerCase {
                     }
                 }
             }
+        }
+        // two detections competing for one object (the second is a displaced copy):
+        // only one can continue the track, and it must be the better one
+        if o.stress && !dets.is_empty() && r.chance(1, 4) {
+            let mut d = dets[r.below(dets.len() as u64) as usize].clone();
+            let w = d.b.aspect * d.b.height;
+            let sh = (0.1 + r.f32() * 0.3) * w.min(d.b.height);
+            let ang = r.f32() * 6.283;
+            d.b.xc += sh * ang.cos();
+            d.b.yc += sh * ang.sin();
+            d.truth = u32::MAX - 1;
+            d.feature = None;
+            d.quality = None;
+            dets.push(d);
         }
         // false positive
         if r.chance(1, 10) {
